@@ -356,10 +356,14 @@ func c05R2(p *core.Program, r *core.Report, pl *pipeline) {
 	}
 	r.Check(okCtor, rule, ctor, "the file constructor allocates a new buffer and a new import tracker", ctor.Node().Pos(), "&genfile{body: bytes.NewBuffer(nil), imports: NewDefaultImportTracker()}", "the constructor reuses a buffer or tracker (pool, package variable, parameter)")
 	nt := p.FuncByName("pkg/namer", "NewDefaultImportTracker")
+	if nt != nil {
+		nt = flatten(p, nt) // a shared unexported constructor is seen in place
+	}
 	okNT := false
-	if nt != nil && len(nt.Body.List) == 1 {
-		if ret, ok := nt.Body.List[0].(*ast.ReturnStmt); ok && len(ret.Results) == 1 {
-			if u, ok := ast.Unparen(ret.Results[0]).(*ast.UnaryExpr); ok && u.Op == token.AND {
+	if nt != nil && len(nt.Body.List) >= 1 {
+		if ret, ok := nt.Body.List[len(nt.Body.List)-1].(*ast.ReturnStmt); ok && len(ret.Results) == 1 && len(ownReturnsOf(nt)) == 1 {
+			res, _ := core.Resolve(nt.Info(), nt.Body, ret.Results[0])
+			if u, ok := ast.Unparen(res).(*ast.UnaryExpr); ok && u.Op == token.AND {
 				if cl, ok := u.X.(*ast.CompositeLit); ok {
 					maps := 0
 					for _, el := range cl.Elts {
@@ -617,4 +621,19 @@ func c05R4(p *core.Program, r *core.Report) {
 			r.OK(rule, nil, g.rel+": generator state lives in instance fields only", token.NoPos, "no mutable package-level container")
 		}
 	}
+}
+
+// ownReturnsOf: the return statements of f itself (not of nested literals).
+func ownReturnsOf(f *core.Func) []*ast.ReturnStmt {
+	var out []*ast.ReturnStmt
+	ast.Inspect(f.Body, func(n ast.Node) bool {
+		switch x := n.(type) {
+		case *ast.FuncLit:
+			return x == f.Lit
+		case *ast.ReturnStmt:
+			out = append(out, x)
+		}
+		return true
+	})
+	return out
 }
